@@ -61,4 +61,12 @@ func TestDebug(t *testing.T) {
 	}
 	after, _ := readReqs(sc.W, filepath.Join(dir, "r"))
 	fmt.Println("disk", after)
+	if kind == "fix" || kind == "update" {
+		a := Execute(t, sc.W, RunSpec{Kind: "analyse", Dir: filepath.Join(dir, "r"), Pass: true})
+		if a.An != nil {
+			fmt.Println("fresh analysis of the written files: nodes", a.An.Nodes, "vulns", a.An.VulnIDs, "errors", a.An.Errors)
+		} else {
+			fmt.Println("fresh analysis of the written files failed:", a.Err)
+		}
+	}
 }
